@@ -62,6 +62,9 @@ impl FdBackend {
 pub(crate) enum StorageImpl {
     Mmap(MmapMut),
     Fd(FdBackend),
+    /// In-memory storage for proof harnesses (no file, no syscalls).
+    #[cfg(any(walrus_verif, kani))]
+    Mem(std::cell::UnsafeCell<Vec<u8>>),
 }
 
 impl StorageImpl {
@@ -78,6 +81,11 @@ impl StorageImpl {
                 }
             }
             StorageImpl::Fd(fd) => fd.write(offset, data),
+            #[cfg(any(walrus_verif, kani))]
+            StorageImpl::Mem(v) => {
+                let v = unsafe { &mut *v.get() };
+                v[offset..offset + data.len()].copy_from_slice(data);
+            }
         }
     }
 
@@ -94,6 +102,14 @@ impl StorageImpl {
                 }
             }
             StorageImpl::Fd(fd) => fd.read(offset, dest),
+            #[cfg(any(walrus_verif, kani))]
+            StorageImpl::Mem(v) => {
+                let v = unsafe { &*v.get() };
+                let end = offset.saturating_add(dest.len()).min(v.len());
+                if offset < end {
+                    dest[..end - offset].copy_from_slice(&v[offset..end]);
+                }
+            }
         }
     }
 
@@ -110,6 +126,8 @@ impl StorageImpl {
         match self {
             StorageImpl::Mmap(mmap) => mmap.flush(),
             StorageImpl::Fd(fd) => fd.flush(),
+            #[cfg(any(walrus_verif, kani))]
+            StorageImpl::Mem(_) => Ok(()),
         }
     }
 
@@ -117,6 +135,8 @@ impl StorageImpl {
         match self {
             StorageImpl::Mmap(mmap) => mmap.len(),
             StorageImpl::Fd(fd) => fd.len(),
+            #[cfg(any(walrus_verif, kani))]
+            StorageImpl::Mem(v) => unsafe { (&*v.get()).len() },
         }
     }
 
@@ -167,6 +187,16 @@ unsafe impl Sync for SharedMmap {}
 unsafe impl Send for SharedMmap {}
 
 impl SharedMmap {
+    /// In-memory instance for proof harnesses.
+    #[cfg(any(walrus_verif, kani))]
+    #[allow(dead_code)]
+    pub(crate) fn new_mem(bytes: Vec<u8>) -> Arc<Self> {
+        Arc::new(Self {
+            storage: StorageImpl::Mem(std::cell::UnsafeCell::new(bytes)),
+            last_touched_at: AtomicU64::new(0),
+        })
+    }
+
     pub(crate) fn new(path: &str) -> std::io::Result<Arc<Self>> {
         let storage = create_storage_impl(path)?;
 
